@@ -45,7 +45,20 @@ func (s *stubObject) UpdateProperty(id uint32, sig string, data []byte) error {
 	if err != nil {
 		return err
 	}
-	return s.signal.UpdateProperty(id, sig, data)
+	notifyPropertyChange(s.signal, prop.Name, id, sig, data)
+	return nil
+}
+
+// notifyPropertyChange tells the subscribers about the new value of a
+// property. The new value has been validated and saved when it is
+// called: a subscriber which cannot be told (broken connection) does
+// not make the write fail.
+func notifyPropertyChange(signal SignalHandler, name string, id uint32,
+	sig string, data []byte) {
+	if err := signal.UpdateProperty(id, sig, data); err != nil {
+		log.Printf("property %s: cannot notify a subscriber: %s",
+			name, err)
+	}
 }
 
 type objectImpl struct {
@@ -208,7 +221,8 @@ func (o *objectImpl) SetProperty(name value.Value, newValue value.Value) error {
 	if err != nil {
 		return fmt.Errorf("cannot set property: %s", err)
 	}
-	return o.signalHandler.UpdateProperty(id, sig, data)
+	notifyPropertyChange(o.signalHandler, nameStr, id, sig, data)
+	return nil
 }
 
 func (o *objectImpl) saveProperty(name string, newValue value.Value) error {
